@@ -94,7 +94,8 @@ OUT_OF_REACH = [
 ]
 REQUIRED = ['sign_verify_ok', 'tamper_rejected', 'wrong_key_rejected',
             'alg_swap_rejected', 'cert_grid', 'cert_blob_flips', 'sshsig_ok',
-            'sshsig_rejected', 'openssh_cross']
+            'sshsig_rejected', 'openssh_cross', 'signers_object_reused',
+            'cert_use_cases']
 BUDGET_S = {'quick': 300, 'thorough': 3000}
 CASE_TIMEOUT_S = 120
 
@@ -1229,6 +1230,24 @@ def run_sshsig(ctx):
     must_accept(ctx, v_sshsig(ctx, msg, sig, 'bob', win.encode(), label0),
                 label0 + ' inside window')
 
+    # one loaded SSHAllowedSigners object asked repeatedly: every answer
+    # depends on that call's time, principal, namespace and key only
+    obj = asyncssh.import_allowed_signers(win + line(other, 'dave'))
+    for now, who, want in ((T0, 'bob', True), (T0 + 60, 'bob', False),
+                           (T0, 'bob', True), (T0 - 60, 'bob', False),
+                           (T0 + 49, 'bob', True), (T0, 'dave', False),
+                           (T0, 'bob', True), (T0 + 51, 'bob', False)):
+        v = v_sshsig(ctx, msg, sig, who, obj, label0, now)
+        ctx.hit('signers_object_reused')
+        if want:
+            must_accept(ctx, v, f'{label0}: reused allowed-signers object, '
+                                f'now=T0{now - T0:+d} who={who}')
+        else:
+            must_reject(ctx, v, f'{label0}: reused allowed-signers object '
+                                f'accepted at now=T0{now - T0:+d} who={who} '
+                                f'(window is T0-50..T0+50 for bob)',
+                        'sshsig_unauthorised_accepted')
+
     # ---------------- rejection
     edits = [msg + b'\x00', msg[:-1] if msg else b'x', msg[::-1] + b'!']
     if msg:
@@ -1678,6 +1697,101 @@ NAMESPACES = ['file', 'git', 'email', 'a', 'x' * 64, 'name-with.dots_1',
               'ns@example.com', 'ünï', 'with space', 'tab\tns']
 
 
+def run_cert_use(ctx):
+    """The same rules where a certificate is *used*: a host certificate
+       checked by a connecting client (CA from known_hosts, or vouched for by
+       validate_host_ca_key), a user certificate checked by a server (CA
+       from authorized_keys, or vouched for by validate_ca_key)"""
+
+    import asyncio
+    from .. import apps, scen
+
+    case = ctx.case
+    site, defect = case['site'], case['defect']
+    now = int(time.time())
+    ca = apps.host_key('ssh-ed25519', 70)
+    rogue = apps.host_key('ssh-ed25519', 71)
+    subj = apps.host_key('ssh-ed25519', 72)
+    va, vb = {'expired': (now - 7200, now - 3600),
+              'future': (now + 3600, now + 7200)}.get(
+                  defect, (now - 3600, now + 3600))
+    signer = rogue if defect == 'untrusted_ca' else ca
+    host_site = site.startswith('host')
+    want_type_host = host_site != (defect == 'wrong_type')
+    principal = 'elsewhere' if defect == 'wrong_principal' else \
+        ('testhost' if host_site else 'user')
+    principals = [] if defect == 'ok_no_principals' else \
+        ([principal, 'x'] if defect == 'ok_many' else [principal])
+    gen = signer.generate_host_certificate if want_type_host else \
+        signer.generate_user_certificate
+    cert = gen(subj, 'kid', principals=principals, valid_after=va,
+               valid_before=vb)
+    expect = defect in ('ok', 'ok_no_principals', 'ok_many')
+    capub = ca.export_public_key().decode().strip()
+    out = {}
+
+    async def main(loop):
+        class Srv(asyncssh.SSHServer):
+            def connection_made(self, conn):
+                self.conn = conn
+
+            def begin_auth(self, username):
+                if site == 'user_ak':
+                    self.conn.set_authorized_keys(
+                        asyncssh.import_authorized_keys(
+                            'cert-authority ' + capub + '\n'))
+                return not host_site
+
+            def public_key_auth_supported(self):
+                return True
+
+            def validate_ca_key(self, username, key):
+                return site == 'user_cb' and \
+                    key.public_data == ca.public_data
+
+        class Cli(asyncssh.SSHClient):
+            def validate_host_ca_key(self, host, addr, port, key):
+                return site == 'host_cb' and \
+                    key.public_data == ca.public_data
+
+        hk = (subj, cert) if host_site else apps.host_key()
+        async with scen.Env(loop, server_factory=Srv, chunking='all',
+                            seed=case['cseed'], host_keys=[hk]) as env:
+            kw = {}
+            if site == 'host_kh':
+                kw['known_hosts'] = asyncssh.import_known_hosts(
+                    f'@cert-authority testhost {capub}\n')
+            elif site == 'host_cb':
+                kw['known_hosts'] = asyncssh.import_known_hosts(
+                    case.get('kh_text', '# nothing\n'))
+                kw['client_factory'] = Cli
+            if host_site:
+                kw['server_host_key_algs'] = [
+                    'ssh-ed25519-cert-v01@openssh.com']
+            else:
+                kw['client_keys'] = [(subj, cert)]
+            try:
+                conn = await env.connect(**kw)
+                out['ok'] = True
+                conn.abort()
+            except (asyncssh.Error, OSError, ValueError) as exc:
+                out['ok'] = False
+                out['exc'] = repr(exc)[:100]
+            await env.settle()
+            env.san.drain()
+
+    scen.run(main)
+    ctx.hit('cert_use_cases')
+    ctx.obs['result'] = out
+    if out.get('ok') and not expect:
+        ctx.bad('defective_certificate_accepted_in_use',
+                f'site={site} defect={defect}: the connection was '
+                f'established')
+    elif not out.get('ok') and expect:
+        ctx.bad('valid_certificate_refused_in_use',
+                f'site={site} defect={defect}: {out.get("exc")}')
+
+
 def rand_cert_item(rng):
     now = T0
     r = rng.random()
@@ -1781,6 +1895,16 @@ def gen_cases(tier, seed):
              'sk-ed25519', 'sk-ecdsa']), items=items,
             flips=20 if quick else 150)
 
+    # ---- certificates where they are used (connections)
+    for site in ('host_kh', 'host_cb', 'user_ak', 'user_cb'):
+        for defect in ('ok', 'ok_no_principals', 'ok_many', 'expired',
+                       'future', 'wrong_type', 'wrong_principal',
+                       'untrusted_ca'):
+            cases.append(dict(kind='cert_use', site=site, defect=defect,
+                              cseed=21))
+    cases.append(dict(kind='cert_use', site='host_cb', defect='expired',
+                      kh_text='', cseed=22))
+
     # ---- SSHSIG
     for spec in SIGN_SPECS:
         for _ in range(6 if quick else 30):
@@ -1811,7 +1935,7 @@ def signature(case):
 RUNNERS = {'sig': run_sig, 'cert_grid': run_cert_grid,
            'cert_handbuilt': run_cert_handbuilt, 'cert_flip': run_cert_flip,
            'cert_keygen': run_cert_keygen, 'sshsig': run_sshsig,
-           'sshsig_cert': run_sshsig_cert}
+           'sshsig_cert': run_sshsig_cert, 'cert_use': run_cert_use}
 
 
 def run_case(case):
